@@ -35,11 +35,68 @@ pub(crate) fn decode(
     reference: &[u8],
     data: &[u8],
 ) -> Result<Vec<Vec<u8>>, Box<dyn std::error::Error + Send + Sync>> {
+    // the RLE decoder trusts its input (it indexes past the end on a truncated varint and
+    // allocates whatever size the run headers announce), so validate untrusted bytes first
+    validate_rle(data)?;
+
     // decode the RLE encoding first
     let buf = bitfield_rle::decode(data)?;
 
     // decode the delta-encoding
     delta_decode(reference, &buf)
+}
+
+/// Upper bound for the number of inputs in one packet; generously more than a sender ever keeps
+/// pending.
+const MAX_PACKET_INPUTS: usize = 256;
+
+/// Upper bound for the decoded size of one input packet: more than the maximum number of pending
+/// inputs, each with the largest length the 2-byte length prefix can express.
+const MAX_DECODED_LEN: usize = 160 * (2 + u16::MAX as usize);
+
+/// Checks that `data` is a well-formed RLE stream: every varint terminates inside the buffer,
+/// every literal run lies inside the buffer and the decoded size stays below [`MAX_DECODED_LEN`].
+fn validate_rle(data: &[u8]) -> Result<(), Box<dyn std::error::Error + Send + Sync>> {
+    let mut offset = 0;
+    let mut decoded_len = 0usize;
+
+    while offset < data.len() {
+        // read one varint
+        let mut value = 0u64;
+        let mut shift = 0u32;
+        loop {
+            let Some(&byte) = data.get(offset) else {
+                return Err("truncated varint in RLE data".into());
+            };
+            offset += 1;
+            if shift > 56 {
+                return Err("oversized varint in RLE data".into());
+            }
+            value |= u64::from(byte & 127) << shift;
+            shift += 7;
+            if byte & 128 == 0 {
+                break;
+            }
+        }
+
+        let literal = value & 1 == 0;
+        let run = if literal { value >> 1 } else { value >> 2 };
+        let Ok(run) = usize::try_from(run) else {
+            return Err("RLE run too long".into());
+        };
+        if literal {
+            if run > data.len() - offset {
+                return Err("RLE literal run exceeds the packet".into());
+            }
+            offset += run;
+        }
+        decoded_len = match decoded_len.checked_add(run) {
+            Some(len) if len <= MAX_DECODED_LEN => len,
+            _ => return Err("RLE data decodes to more than a packet can contain".into()),
+        };
+    }
+
+    Ok(())
 }
 
 fn delta_decode(
@@ -57,6 +114,10 @@ fn delta_decode(
         }
         let len = u16::from_le_bytes([data[pos], data[pos + 1]]) as usize;
         pos += 2;
+
+        if output.len() >= MAX_PACKET_INPUTS {
+            return Err("too many inputs in one packet".into());
+        }
 
         if pos + len > data.len() {
             return Err("truncated input data".into());
